@@ -1183,6 +1183,9 @@ class Segment:
                         self.models[sub["m"]]["obj"].get_feature_by_name(sub["feature"]) is None:
                     rec["outcome"] = "skipped"
                     return
+        if getattr(self, "conc_stalled", False):
+            rec["outcome"] = "skipped"
+            return
         pkg = os.path.dirname(os.path.dirname(sys.modules[
             "flamapy.metamodels.fm_metamodel.models"].__file__))
 
@@ -1253,11 +1256,14 @@ class Segment:
             self.probe("fault_fired.thread_preemption", len(sch.log))
         if sch.deferred:
             self.probe("conc_switch_deferred_inside_dependency", sch.deferred)
+        if sch.lock_yields:
+            self.probe("conc_library_lock_contended", sch.lock_yields)
         rec["sched"] = sha(rm.cj([list(x) for x in sch.log]))
         rec["switches"] = len(sch.log)
         if not finished or sch.errors:
             self.probe("conc_schedule_stalled")
             rec["outcome"] = "stalled"
+            self.conc_stalled = True      # no further interleaved execution in this interpreter
             return
         if sch.log:
             self.probe("conc_ops_with_interleaving")
@@ -1517,6 +1523,10 @@ def main():
     sys.stdout = devnull
     sys.stderr = devnull
     try:
+        if any(op.get("op") == "CONC" for op in job.get("ops", [])):
+            # locks the library may create are scheduling points of the caller-thread scheduler
+            from . import sched
+            sched.install_cooperative_locks()
         import flamapy.metamodels.fm_metamodel as pkg
         origin = os.path.realpath(os.path.dirname(pkg.__file__))
         if origin != os.path.realpath(pkg_dir):
